@@ -19,13 +19,16 @@ pub fn generate(tier: &str, rng: &mut Rng) -> Vec<Spec> {
             if !t && n == 3 && (xs[0] == Rat::int(0)) { continue; }
             v.push(Spec::new(kind).with("N", n).with("c", join_rats(&c)).with("xs", join_rats(&xs))); } } }
         for _ in 0..(if t { 2500 } else { 350 }) {
-            let n = *rng.pick(if t { &[1usize, 2, 3, 4, 5, 6, 8, 16][..] } else { &[1usize, 2, 3, 4, 5, 6, 8][..] });
+            let n = *rng.pick(if t { &[1usize, 2, 3, 4, 5, 6, 8, 16, 18, 20, 24][..] } else { &[1usize, 2, 3, 4, 5, 6, 8, 16, 18, 21][..] });
             let c: Vec<Rat> = (0..n).map(|_| Rat::new(rng.range(-6, 6) as i128, rng.range(1, 4) as i128)).collect();
             let len = rng.range(1, if t { 50 } else { 24 }) as usize;
             let xs: Vec<Rat> = (0..len).map(|_| Rat::new(rng.range(-9, 9) as i128, rng.range(1, 3) as i128)).collect();
             v.push(Spec::new(kind).with("N", n).with("c", join_rats(&c)).with("xs", join_rats(&xs)));
         }
     }
+    // integer instantiation of the normalising constructor: coefficient / sum in the type's own (truncating) division
+    for n in 1..=3usize { for c in crate::util::all_seqs(&[Rat::int(-2), Rat::int(0), Rat::int(3), Rat::int(4)], n) {
+        v.push(Spec::new("normint").with("N", n).with("c", join_rats(&c)).with("xs", "5,-3,2,7")); } }
     for n in [0usize, 1, 2, 3, 4, 5, 6, 16] {
         for l in 0..=(if t { 7 } else { 6 }) { for xs in crate::util::all_seqs(&[1i64, 2, 5], l) { if n > 3 && l < 5 { continue; } v.push(Spec::new("delay").with("N", n).with("xs", join(&xs))); } }
         for _ in 0..(if t { 100 } else { 15 }) { let len = rng.range(1, 60) as usize; let xs: Vec<i64> = (0..len).map(|_| rng.range(-99, 99)).collect(); v.push(Spec::new("delay").with("N", n).with("xs", join(&xs))); }
@@ -43,6 +46,15 @@ fn conv<const N: usize>(norm: bool, c: &[Rat], xs: &[Rat], stats: &mut Stats) ->
     let mut ys = vec![]; let mut panic = false;
     for x in xs { match catch(|| f.filter(*x)) { Ok(y) => ys.push(y), Err(_) => { panic = true; stats.panics += 1; break } } }
     Outcome::Case(format!("mk {}%nat {}%nat {} {} {} {} {}", norm as u8, N, cqlist(c), cqlist(&reported), cqlist(xs), cqlist(&ys), cbool(panic)))
+}
+fn conv_int<const N: usize>(c: &[Rat], xs: &[Rat], stats: &mut Stats) -> Outcome {
+    let mut arr = [0i64; N]; for (a, r) in arr.iter_mut().zip(c) { *a = r.n as i64; }
+    let built = catch(|| Convolve::<i64, N>::normalized(Config { coefficients: arr }));
+    let mut f = match built { Ok(f) => f, Err(_) => { stats.panics += 1; return Outcome::Case(format!("mk 4%nat {}%nat {} [] {} [] true", N, cqlist(c), cqlist(xs))); } };
+    let reported: Vec<i64> = f.config_ref().coefficients.to_vec();
+    let mut ys = vec![]; let mut panic = false;
+    for x in xs { match catch(|| f.filter(x.n as i64)) { Ok(y) => ys.push(y), Err(_) => { panic = true; stats.panics += 1; break } } }
+    Outcome::Case(format!("mk 4%nat {}%nat {} {} {} {} {}", N, cqlist(c), clist(&reported, |z| qi(*z)), cqlist(xs), clist(&ys, |z| qi(*z)), cbool(panic)))
 }
 fn delay<const N: usize>(xs: &[i64], stats: &mut Stats) -> Outcome {
     let mut f: Delay<i64, N> = Delay::default();
@@ -65,9 +77,11 @@ fn sg(n: usize, ty: &str) -> Outcome {
 pub fn exec(s: &Spec, stats: &mut Stats) -> Outcome {
     let n = s.usize("N"); stats.bump(format!("kind:{}", s.kind)); stats.bump(format!("N:{}", n));
     match s.kind.as_str() {
+        "normint" => { let (c, xs) = (s.rats("c"), s.rats("xs")); if c.len() != n { return Outcome::Skip("coefficient-count-mismatch"); }
+            crate::dispatch_n!(n, conv_int, (&c, &xs, stats); 1 2 3) }
         "conv" | "norm" => { let (c, xs) = (s.rats("c"), s.rats("xs")); let norm = s.kind == "norm";
             if c.len() != n { return Outcome::Skip("coefficient-count-mismatch"); }
-            crate::dispatch_n!(n, conv, (norm, &c, &xs, stats); 1 2 3 4 5 6 8 16) }
+            crate::dispatch_n!(n, conv, (norm, &c, &xs, stats); 1 2 3 4 5 6 8 16 18 20 21 24) }
         "delay" => { let xs = s.i64s("xs"); crate::dispatch_n!(n, delay, (&xs, stats); 0 1 2 3 4 5 6 16) }
         _ => sg(n, s.get("ty")),
     }
